@@ -1934,7 +1934,7 @@ def propagate_callable_locals(fn: ast.FunctionDef, helper_names) -> bool:
         if isinstance(v, ast.IfExp):
             # (a conditional between whole rows is left to the case split, which reads the rest once per row)
             return callable_value(v.body) and callable_value(v.orelse) and \
-                not any(isinstance(y, ast.Tuple) for y in ast.walk(v))
+                not isinstance(v.body, ast.Tuple) and not isinstance(v.orelse, ast.Tuple)
         if isinstance(v, ast.Lambda):
             return True
         if isinstance(v, ast.Tuple) and v.elts and all(callable_value(e) for e in v.elts):
